@@ -146,6 +146,24 @@ def _one_impl(sc, alg, kind, payload: bytes, with_ref: bool):
         return fails + ([] if soft else [("verify-raised:" + type(e).__name__, str(e)[:100])])
     if got_payload != payload:
         fails.append(("payload-differs", repr(got_payload)[:60]))
+    # what was returned belongs to the caller: editing it must not change a later verification of the same token
+    try:
+        if isinstance(got_prot, dict):
+            got_prot_copy = json.loads(json.dumps(got_prot)); got_prot["injected"] = 1; got_prot.pop("alg", None)
+        else:
+            got_prot_copy = got_prot
+        if ser == "compact":
+            o2 = mod.deserialize_compact(tok_v, vkey, payload if (mod is rfc7797 and detached) else None, algorithms=[alg]) if mod is rfc7797 \
+                else mod.deserialize_compact(tok_v, vkey, algorithms=[alg])
+            again = o2.protected
+        else:
+            again = mod.deserialize_json(tok_v, vkey, algorithms=[alg]).members[0].protected
+        if (again or None) != (got_prot_copy or None):
+            fails.append(("second-verification-differs-after-caller-edited-first-result", json.dumps(again)[:80]))
+        got_prot = got_prot_copy
+    except Exception as e:  # noqa
+        fails.append(("second-verification-raised-after-caller-edited-first-result:" + type(e).__name__, str(e)[:80]))
+        got_prot = got_prot_copy
     if sc["keyarg"] != "key":
         kid_expected = priv.kid
         if kid_expected is None:
